@@ -943,11 +943,13 @@ func init() {
 	register(&PropSpec{
 		ID: "C04", Level: "proof",
 		Pkgs:    []string{"./internal/ebnf/parser"},
-		Prepare: prepareLALROracle,
+		Prepare: prepareAll,
 		Extra:   c04Extra,
 		Select: []Selector{
 			{Units: `ebnf/parser\.ACTION$`, Kinds: `^(post|vacuity)$`},
 			{Units: `ebnf/parser\.GOTO$`, Kinds: `^(post|vacuity)$`},
+			{Units: `ebnf/parser\.Parser\.Parse$`, Kinds: `^(post|inv-init|inv-pres|step|pre|term|vacuity)$`},
+			{Units: `ebnf/parser\.Parser\.nextToken$`, Kinds: `^(post|vacuity)$`},
 		},
 		Replay:    replayScalar,
 		Lemmas:    []string{"L-LR: for a grammar and its conflict-free LALR(1) table the shift-reduce driver accepts exactly L(G) (Aho et al. §4.5-4.7)"},
